@@ -16,6 +16,7 @@ import (
 	"github.com/MichaelMure/git-bug/entities/bug"
 	"github.com/MichaelMure/git-bug/entities/identity"
 	"github.com/MichaelMure/git-bug/entity"
+	"github.com/MichaelMure/git-bug/repository"
 
 	"verif/harness/hx"
 )
@@ -186,7 +187,7 @@ func session(out *hx.Writer, round int) {
 
 	c, err := hx.OpenCache(repo)
 	hx.Must(err)
-	defer c.Close()
+	defer func() { _ = c.Close() }()
 
 	// populations as the cache sees them
 	bugIdx := map[string]int{}
@@ -318,6 +319,47 @@ func session(out *hx.Writer, round int) {
 				queryIdent(alter(id[:L]))
 			}
 		}
+	}
+	// what a prefix resolves to is a matter of the population, not of which entities happen to be in memory: the same questions
+	// again with nothing loaded (the cache reopened), and with exactly one entity loaded, each in turn
+	reopen := func() {
+		hx.Must(c.Close())
+		r2, err := repository.OpenGoGitRepo(dir, "git-bug", nil)
+		hx.Must(err)
+		c, err = hx.OpenCache(r2)
+		hx.Must(err)
+	}
+	short := func(q func(string), ids []string) {
+		for _, id := range ids {
+			for _, L := range []int{0, 1, 2, 3, 4, 7, 64} {
+				q(id[:L])
+				if L > 0 && L < 64 {
+					q(alter(id[:L]))
+				}
+			}
+		}
+	}
+	var bugIds, identIds []string
+	for _, b := range bugs {
+		bugIds = append(bugIds, b.Id().String())
+	}
+	for _, i := range idents {
+		identIds = append(identIds, i.Id().String())
+	}
+	reopen()
+	short(queryEntity, bugIds)
+	short(queryIdent, identIds)
+	for k := range bugIds {
+		reopen()
+		_, err := c.Bugs().Resolve(entity.Id(bugIds[k]))
+		hx.Must(err)
+		short(queryEntity, bugIds)
+	}
+	for k := range identIds {
+		reopen()
+		_, err := c.Identities().Resolve(entity.Id(identIds[k]))
+		hx.Must(err)
+		short(queryIdent, identIds)
 	}
 	// the command line's resolution (commands/select): no selection, a selected bug, a selection that no longer exists
 	selEmit := func(p string, hasArg bool, sel int) {
